@@ -83,4 +83,12 @@ def length_layer(bufsize=8192, ks=(1, 2, 3)):
             out.append("\U0001f600" * (n // 12) + "a" * (n % 12))
             # escapes passing through
             out.append("%2F" * (n // 3) + "a" * (n % 3))
+    # exactly ONE rewrite in the whole string, sitting on the growth boundary (nothing before it flags the output as changed):
+    # the single-character rewrites (' ' -> '+', '%41' -> 'A') and the three-character ones, with and without a tail
+    units = [" ", "%41", "%7E", "%7e", "é", "%zz", "%2f", "\udc80", "+", "%"]
+    for k in ks:
+        for delta in (-2, -1, 0, 1):
+            n = k * bufsize + delta
+            for i, u in enumerate(units):
+                out.append("a" * n + u + ("b" if (i + delta) % 2 else ""))
     return out
